@@ -273,9 +273,13 @@ def apply_outer(data: bytes, ops, label):
             label["why"] = "spliced"
         elif kind == "oversize":
             # pad so that the kernel truncates at the receive buffer size
-            data = data + bytes([op.get("val", 0)]) * (MAX_DGRAM + op.get("extra", 1) - len(data))
-            label["wf"] = False
-            label["why"] = "oversize"
+            n = MAX_DGRAM + op.get("extra", 1) - len(data)
+            if n > 0:
+                # whatever the receive capacity is, the datagram now ends in octets that are
+                # not part of the message (cut by the kernel or not): never acceptable
+                data = data + bytes([op.get("val", 0)]) * n
+                label["wf"] = False
+                label["why"] = "oversize"
         else:
             raise ValueError(kind)
     return data
